@@ -9,7 +9,7 @@ world = {
                         "origin": [6], "axis": [3], "lower", "upper"}]},
   "extras": [{"frame": str, "parent": str, "T": [16], "kind": sphere|box|cylinder|capsule|cone|mesh,
               "params": {...}, "pose0": [16]}],          # colliders for add_collider
-  "cmds": [ {"op": "fill", "whitelists": bool}
+  "cmds": [ {"op": "fill", "whitelists": bool, "use_visuals": bool}    (links may carry "visuals": [...] like "collisions")
           | {"op": "add", "extra": k, "frame": str (optional override), "reuse": j (optional: re-use the
              OBJECT created for an earlier add of extra j  -> aliasing), "no_tm": bool}
           | {"op": "set_joint", "joint": str, "value": float}
@@ -79,10 +79,10 @@ def urdf_xml(u):
     out = [f'<?xml version="1.0"?><robot name="{u["name"]}">']
     for ln in u["links"]:
         out.append(f'<link name="{ln["name"]}">')
-        for c in ln["collisions"]:
+        for tag, c in [("visual", v) for v in ln.get("visuals", [])] + [("collision", c) for c in ln["collisions"]]:
             nm = f' name="{c["name"]}"' if c.get("name") else ""
             o = c["origin"]
-            out.append(f'<collision{nm}><origin xyz="{o[0]!r} {o[1]!r} {o[2]!r}" rpy="{o[3]!r} {o[4]!r} {o[5]!r}"/><geometry>')
+            out.append(f'<{tag}{nm}><origin xyz="{o[0]!r} {o[1]!r} {o[2]!r}" rpy="{o[3]!r} {o[4]!r} {o[5]!r}"/><geometry>')
             p = c["params"]
             if c["kind"] == "sphere":
                 out.append(f'<sphere radius="{p["radius"]!r}"/>')
@@ -93,7 +93,7 @@ def urdf_xml(u):
                 out.append(f'<cylinder radius="{p["radius"]!r}" length="{p["length"]!r}"/>')
             else:
                 raise ValueError(c["kind"])
-            out.append('</geometry></collision>')
+            out.append(f'</geometry></{tag}>')
         out.append('</link>')
     for j in u["joints"]:
         o = j["origin"]
@@ -136,6 +136,9 @@ class World:
                 for k, c in enumerate(ln["collisions"]):
                     nm = c["name"] if c.get("name") else str(k)
                     self.urdf_geom[f"collision:{ln['name']}/{nm}"] = (c["kind"], c["params"])
+                for k, c in enumerate(ln.get("visuals", [])):
+                    nm = c["name"] if c.get("name") else str(k)
+                    self.urdf_geom[f"visual:{ln['name']}/{nm}"] = (c["kind"], c["params"])
         else:
             self.tm = TransformManager()
             self.base = "base"
@@ -235,13 +238,15 @@ class World:
         bvh, tm = self.bvh, self.tm
         try:
             if op == "fill":
-                frames = [o.frame for o in tm.collision_objects]
+                use_visuals = bool(cmd.get("use_visuals", False))
+                frames = [o.frame for o in (tm.visuals if use_visuals else tm.collision_objects)]
                 rec["frames"] = frames
                 raw_tm = {f: self.tm_pose(f) for f in list(bvh.colliders_) + frames}
                 before = dict(bvh.colliders_)
                 with warnings.catch_warnings(record=True) as wl:
                     warnings.simplefilter("always")
-                    bvh.fill_tree_with_colliders(tm, fill_self_collision_whitelists=cmd.get("whitelists", False))
+                    bvh.fill_tree_with_colliders(tm, fill_self_collision_whitelists=cmd.get("whitelists", False),
+                                                 use_visuals=use_visuals)
                 rec["warnings"] = [str(x.message)[:100] for x in wl]
                 new = []
                 for f in frames:
@@ -260,7 +265,7 @@ class World:
                         warnings.simplefilter("ignore")
                         gw = self_collision_whitelists(tm)
                     rec["generated_wl"] = [[k, list(v)] for k, v in gw.items()]
-                    rec["collision_frames"] = frames
+                    rec["collision_frames"] = [o.frame for o in tm.collision_objects]
             elif op == "add":
                 ex = self.w["extras"][cmd["extra"]]
                 frame = cmd.get("frame", ex["frame"])
